@@ -25,7 +25,8 @@ var negControls = []struct {
 	{"MC_Walk", "MC_Walk_outline_nodepth.cfg", "inv:NoOverflow"},
 	{"MC_Walk", "MC_Walk_nametree_noseen.cfg", "inv:WorkBounded"},
 	{"MC_Walk", "MC_Walk_nametree_nodepth.cfg", "inv:NoOverflow"},
-	{"MC_Walk", "MC_Walk_filters_noseen.cfg", "temporal"},
+	{"MC_Walk", "MC_Walk_filters_noseen.cfg", "inv:NoOverflow|inv:WorkBounded"},
+	{"MC_Walk", "MC_Walk_filters_globals_ascoded.cfg", "inv:NoOverflow"},
 	{"MC_Walk", "MC_Walk_filters_nochain.cfg", "inv:ChainBounded"},
 }
 
@@ -47,7 +48,7 @@ func selfTest(ctx *core.Ctx) error {
 		case res.Deadlock:
 			got = "deadlock"
 		}
-		if got != nc.want {
+		if !strings.Contains("|"+nc.want+"|", "|"+got+"|") {
 			return core.Infra("self-test: negative control %s must fail with %s, got %s", nc.cfg, nc.want, got)
 		}
 		fmt.Printf("selftest: %s fails as it must (%s)\n", nc.cfg, got)
